@@ -722,6 +722,8 @@ fn run(run: &mut Run) {
     run.assume("an import error on a well-formed library is accepted by the statement and counted as refused");
     run.min_nontrivial = 200;
     run.explore("import", run.tier.pick(16_000, 250_000), 900, &main_case);
+    // the same, each case in a thread of its own (per-thread state of the code starts from scratch)
+    run.explore_fresh("import", run.tier.pick(3_000, 40_000), 900, &main_case);
     run.explore("malformed", run.tier.pick(10_000, 60_000), 900, &malformed_case);
 }
 fn case(sub: &str) -> Option<Box<CaseFn<'static>>> {
